@@ -237,6 +237,14 @@ func runC11(c *Ctx) {
 		c.undecided("ANCHOR", "slice.EditScript/editScriptFunc", 0, "not found")
 		return
 	}
+	{
+		cw := []*ssa.Function{esf, es}
+		if l := P.Func("slice", "", "LCSFunc"); l != nil {
+			cw = append(cw, l)
+		}
+		ruleCounterWidth(c, cw)
+		ruleLCSDiagonal(c)
+	}
 	// which parameters of the builder receive EditScript's lhs and rhs
 	li, ri := -1, -1
 	allInstrs(es, func(in ssa.Instruction) {
@@ -258,6 +266,7 @@ func runC11(c *Ctx) {
 	c.sawFn(fnName(esf))
 	lhs, rhs := esf.Params[li], esf.Params[ri]
 	ruleCursorFamilies(c, esf, lhs, rhs)
+	ruleSpanConsecutive(c, esf, lhs, rhs)
 	// direct index variables of each side
 	directIdx := map[ssa.Value]string{}
 	allInstrs(esf, func(in ssa.Instruction) {
@@ -811,6 +820,7 @@ func runC13(c *Ctx) {
 	ruleSiblingGuard(c, "mdiff")
 	ruleUnifyOrder(c)
 	ruleMergeTarget(c)
+	ruleMdiffPairs(c)
 	ruleAllocBounded(c, "mdiff", false)
 
 	// ---- R-LR-MIRROR
@@ -2205,5 +2215,235 @@ func ruleMergeTarget(c *Ctx) {
 	}
 	if n == 0 {
 		c.undecided("R-MERGE-TARGET", "mdiff.UnifyChunks:comparison of neighbouring chunks", unify.Pos(), "no comparison between fields of two chunks found in a loop")
+	}
+}
+
+// ruleMdiffPairs: a batch of small agreement rules in package mdiff.
+//
+//   - R-COND-MIRROR: a test on one side's range of a chunk (REnd == RStart) is
+//     accompanied, in the same function, by the same test on the other side
+//     (LEnd == LStart): "the chunk is empty" is a statement about both ranges.
+//   - R-CONTEXT-CONTIGUOUS: in findContext's loops the edge taken when the two
+//     lines differ leaves the loop: context is a contiguous run next to the chunk.
+//   - R-JOIN-ORDER: where a span is grown by another edit's span (X = append(a, b...))
+//     the span being grown is the one stored into (a is the destination's own
+//     span), so the lines keep their order; and from the join every path to the
+//     merge of the two edit lists drops the joined edit from its list.
+func ruleMdiffPairs(c *Ctx) {
+	P := c.P
+	c.rule("R-COND-MIRROR", 2, "a same-chunk range test on one side is accompanied by the same test on the other side")
+	c.rule("R-CONTEXT-CONTIGUOUS", 1, "in findContext the edge taken on unequal lines leaves the loop")
+	c.rule("R-JOIN-ORDER", 1, "a span is grown in place by the neighbour's span, in that order, and the joined edit is then dropped from its list")
+	side := map[string]string{"LStart": "L", "LEnd": "L", "RStart": "R", "REnd": "R"}
+	chunkT := P.Named("mdiff", "Chunk")
+	// ---- R-COND-MIRROR
+	for _, fn := range P.PkgFuncs("mdiff") {
+		type cmpSite struct {
+			base, side string
+			op         token.Token
+			pos        token.Pos
+		}
+		var sites []cmpSite
+		allInstrs(fn, func(in ssa.Instruction) {
+			bo, ok := in.(*ssa.BinOp)
+			if !ok || (bo.Op != token.EQL && bo.Op != token.NEQ) {
+				return
+			}
+			bx, fx := loadedField(bo.X)
+			by, fy := loadedField(bo.Y)
+			if fx == nil || fy == nil || sym(bx) != sym(by) || side[fx.Name()] == "" || side[fx.Name()] != side[fy.Name()] || fx.Name() == fy.Name() {
+				return
+			}
+			if chunkT != nil {
+				if p, ok := bx.Type().Underlying().(*types.Pointer); !ok || !isNamedOrigin(p.Elem(), chunkT) {
+					return
+				}
+			}
+			sites = append(sites, cmpSite{sym(bx), side[fx.Name()], bo.Op, bo.Pos()})
+		})
+		for i, st := range sites {
+			mirrored := false
+			for _, o := range sites {
+				if o.base == st.base && o.op == st.op && o.side != st.side {
+					mirrored = true
+				}
+			}
+			c.sawFn(fnName(fn))
+			c.judge(mirrored, "R-COND-MIRROR", fmt.Sprintf("%s:%s-range %s #%d", fnName(fn), st.side, st.op, i+1), st.pos, "the other side's range is tested the same way", fmt.Sprintf("the %s range of the chunk is tested for emptiness (%s) but the other side's range is not tested the same way anywhere in this function: a chunk that is empty on one side only (a pure insertion or deletion) is treated as empty", st.side, st.op))
+		}
+	}
+	// ---- R-CONTEXT-CONTIGUOUS
+	if fc := P.Func("mdiff", "Diff", "findContext"); fc != nil {
+		n := 0
+		for _, f := range buildCallScope(fc).fns {
+			f := f
+			allInstrs(f, func(in ssa.Instruction) {
+				bo, ok := in.(*ssa.BinOp)
+				if !ok || (bo.Op != token.EQL && bo.Op != token.NEQ) {
+					return
+				}
+				isElem := func(v ssa.Value) bool {
+					ld, ok := v.(*ssa.UnOp)
+					if !ok || ld.Op != token.MUL {
+						return false
+					}
+					ia, ok := ld.X.(*ssa.IndexAddr)
+					if !ok {
+						return false
+					}
+					_, f2 := loadedField(ia.X)
+					return f2 != nil
+				}
+				if !isElem(bo.X) || !isElem(bo.Y) {
+					return
+				}
+				var iff *ssa.If
+				for _, r := range referrersOf(bo) {
+					if i2, ok := r.(*ssa.If); ok {
+						iff = i2
+					}
+				}
+				if iff == nil {
+					return
+				}
+				// the loop: innermost header dominating the test
+				var hdr *ssa.BasicBlock
+				for d := bo.Block(); d != nil && hdr == nil; d = d.Idom() {
+					for _, p := range d.Preds {
+						if d.Dominates(p) {
+							hdr = d
+						}
+					}
+				}
+				if hdr == nil {
+					return
+				}
+				n++
+				c.sawFn(fnName(f))
+				mism := iff.Block().Succs[0] // NEQ true edge
+				if bo.Op == token.EQL {
+					mism = iff.Block().Succs[1]
+				}
+				// does the mismatch edge come back to the header?
+				seen := map[*ssa.BasicBlock]bool{}
+				back := false
+				var walk func(b *ssa.BasicBlock)
+				walk = func(b *ssa.BasicBlock) {
+					if seen[b] || back {
+						return
+					}
+					seen[b] = true
+					if b == hdr {
+						back = true
+						return
+					}
+					if !hdr.Dominates(b) {
+						return // left the loop
+					}
+					for _, s := range b.Succs {
+						walk(s)
+					}
+				}
+				walk(mism)
+				c.judge(!back, "R-CONTEXT-CONTIGUOUS", fmt.Sprintf("%s:unequal lines end the run #%d", fnName(f), n), bo.Pos(), "the mismatch edge leaves the loop", "when the two lines differ the loop goes on to the next pair instead of stopping: context lines are collected from beyond the first difference, so the chunk's context no longer matches the lines next to it")
+			})
+		}
+	}
+	// ---- R-JOIN-ORDER
+	if unify := P.Func("mdiff", "", "UnifyChunks"); unify != nil {
+		editT := P.Named("slice", "Edit")
+		var listF *types.Var
+		if chunkT != nil {
+			for _, f := range structFields(chunkT) {
+				if _, ok := f.Type().Underlying().(*types.Slice); ok {
+					listF = f
+				}
+			}
+		}
+		isSpan := func(f *types.Var) bool {
+			if f == nil || editT == nil {
+				return false
+			}
+			if _, ok := f.Type().Underlying().(*types.Slice); !ok {
+				return false
+			}
+			for _, g := range structFields(editT) {
+				if sameField(f, g) {
+					return true
+				}
+			}
+			return false
+		}
+		n := 0
+		for _, fn := range buildCallScope(unify).fns {
+			fn := fn
+			allInstrs(fn, func(in ssa.Instruction) {
+				st, ok := in.(*ssa.Store)
+				if !ok {
+					return
+				}
+				fa, ok := st.Addr.(*ssa.FieldAddr)
+				if !ok {
+					return
+				}
+				_, df := fieldVarOf(fa)
+				if !isSpan(df) {
+					return
+				}
+				ap, ok := isBuiltinCall(st.Val, "append")
+				if !ok || len(ap.Call.Args) != 2 {
+					return
+				}
+				b0, f0 := loadedField(ap.Call.Args[0])
+				_, f1 := loadedField(ap.Call.Args[1])
+				if !isSpan(f0) || !isSpan(f1) {
+					return
+				}
+				n++
+				c.sawFn(fnName(fn))
+				key := fmt.Sprintf("%s:join #%d", fnName(fn), n)
+				var probs []string
+				if !(sameField(f0, df) && (b0 == fa.X || sym(b0) == sym(fa.X))) {
+					probs = append(probs, "the span stored into is not the one being extended: the neighbour's lines come first and the lines of this edit after them (context in the wrong order)")
+				}
+				// the joined edit leaves its list before the lists are merged
+				if listF != nil {
+					isDrop := func(in2 ssa.Instruction) bool {
+						s2, ok := in2.(*ssa.Store)
+						if !ok {
+							return false
+						}
+						fa2, ok := s2.Addr.(*ssa.FieldAddr)
+						if !ok {
+							return false
+						}
+						if _, f2 := fieldVarOf(fa2); !sameField(f2, listF) {
+							return false
+						}
+						sl, ok := s2.Val.(*ssa.Slice)
+						return ok && (sl.Low != nil || sl.High != nil)
+					}
+					isMerge := func(in2 ssa.Instruction) bool {
+						s2, ok := in2.(*ssa.Store)
+						if !ok {
+							return false
+						}
+						fa2, ok := s2.Addr.(*ssa.FieldAddr)
+						if !ok {
+							return false
+						}
+						if _, f2 := fieldVarOf(fa2); !sameField(f2, listF) {
+							return false
+						}
+						ap2, ok := isBuiltinCall(s2.Val, "append")
+						return ok && len(ap2.Call.Args) == 2
+					}
+					if missing, wit := reachesWithout(P, st, false, isMerge, isDrop); missing {
+						probs = append(probs, "the edit whose lines were moved stays in its chunk's list up to the merge ("+wit+"): those context lines appear twice in the merged chunk")
+					}
+				}
+				c.judge(len(probs) == 0, "R-JOIN-ORDER", key, st.Pos(), "own span extended by the neighbour's; the joined edit is dropped before the merge", strings.Join(probs, "; "))
+			})
+		}
 	}
 }
